@@ -1123,7 +1123,8 @@ class TermCanvas(Canvas):
                     if max(attrs[idx + 2 : idx + 5]) > 255:  # not an RGB triple: ignore this colour
                         idx += 5
                         continue
-                    color = (attrs[idx + 2] << 16) + (attrs[idx + 3] << 8) + attrs[idx + 4]
+                    # kept as a description, so that it is not taken for a palette index
+                    color = _color_desc_true((attrs[idx + 2] << 16) + (attrs[idx + 3] << 8) + attrs[idx + 4])
                     colors = 2**24
                     if attr == 38:
                         fg = color
@@ -1170,12 +1171,12 @@ class TermCanvas(Canvas):
         if "bold" in attributes and colors == 16 and fg is not None and fg < 8:
             fg += 8
 
-        def _defaulter(color: int | None, colors: int) -> str:
+        def _defaulter(color: int | str | None, colors: int) -> str:
             if color is None:
                 return "default"
+            if isinstance(color, str):  # 24 bit color
+                return color
             # Note: we can't detect 88 color mode
-            if color > 255 or colors == 2**24:
-                return _color_desc_true(color)
             if color > 15 or colors == 256:
                 return _color_desc_256(color)
             return _BASIC_COLORS[color]
@@ -1210,13 +1211,17 @@ class TermCanvas(Canvas):
                 fg = None
             else:
                 fg = self.attrspec.foreground_number
-                if fg >= 8 and self.attrspec.colors == 16 and self.attrspec.bold:
+                if self.attrspec.foreground_true:
+                    fg = _color_desc_true(fg)
+                elif fg >= 8 and self.attrspec.colors == 16 and self.attrspec.bold:
                     fg -= 8  # sgi_to_attrspec() adds it again for bold
 
             if "default" in self.attrspec.background:
                 bg = None
             else:
                 bg = self.attrspec.background_number
+                if self.attrspec.background_true:
+                    bg = _color_desc_true(bg)
 
             for attr in ("bold", "underline", "blink", "standout"):
                 if not getattr(self.attrspec, attr):
